@@ -940,7 +940,9 @@ impl LineBuf {
 			SelectRange::OneDim((start,end)) => {
 				match self.select_mode.as_ref().unwrap() {
 					SelectMode::Char(_) => {
-						let slice = self.slice_inclusive(start..=end + 1)?;
+						// The selection may reach the end of the buffer, where there is no 'one past the end'
+						let end = (end + 1).min(self.cursor.cap());
+						let slice = self.slice_inclusive(start..=end)?;
 						Some(slice.to_string())
 					}
 					SelectMode::Line(_) => {
